@@ -882,7 +882,8 @@ def tcp_topo(rng, lossy, nat):
     return topo, mssv
 
 
-def rand_tcp_program(rng):
+def rand_tcp_program(rng, plain=False):
+    """plain=True: IPv4 only (the packet capture is IPv4 only)."""
     lossy = rng.random() < 0.45
     nat = rng.choice(["none", "none", "client", "acceptor", "both"])
     topo, mssv = tcp_topo(rng, lossy, nat)
@@ -958,7 +959,17 @@ def rand_tcp_program(rng):
         c2["cport"] = 0 if c0["cport"] == 0 else c0["cport"] + 50
         c2["close"] = rng.choice(["none", "client"])
         conns.append(c2)
-    return {"topo": topo, "acceptors": acceptors, "conns": conns, "ctl": ctl}
+    prog = {"topo": topo, "acceptors": acceptors, "conns": conns, "ctl": ctl}
+    variant = rng.random()
+    if not plain and variant < 0.12 and nat == "none":
+        # the same program between IPv6 addresses (A6 = fe80:1::6, ...)
+        prog = json.loads(json.dumps(prog).replace('"A1"', '"A6"').replace('"A2"', '"C6"').replace('"B1"', '"B6"'))
+    elif 0.12 <= variant < 0.3:
+        # a multi-homed client node: both client addresses belong to one node (one io_context)
+        prog["topo"]["nodes"] = {"N1": ["A1", "A2"], "N2": ["B1"]}
+        for c in prog["conns"]:
+            c["cnode"] = "N1"
+    return prog
 
 
 def rand_tcp_programs(seed, n, path):
@@ -1594,7 +1605,7 @@ def c19(ctx):
     ft = ctx.path("pc_tcp.ndjson")
     with open(ft, "w") as f:
         for i in range(150 if q else 3000):
-            p = rand_tcp_program(rng)
+            p = rand_tcp_program(rng, plain=True)
             p["pcap"] = os.path.join(pdir, "t%d.pcap" % i)
             f.write(json.dumps(p) + "\n")
     jobs.append(("tcp", ft))
@@ -1760,7 +1771,7 @@ def c01(ctx):
     # corpora (same files for every environment; pcap paths are rewritten per environment)
     def write(name, progs):
         corp[name] = progs
-    write("tcp", [rand_tcp_program(rng) for _ in range(50 if q else 1200)])
+    write("tcp", [rand_tcp_program(rng, plain=True) for _ in range(50 if q else 1200)])
     write("udp", [rand_udp_program(rng) for _ in range(150 if q else 3000)])
     res_f = ctx.path("c01_res.ndjson")
     rand_resolver_programs(ctx.seed, 300 if q else 5000, res_f)
